@@ -15,6 +15,8 @@ import (
 // lying across every power-of-two offset.  The same content is used by several templates of the file shifted by 0..3 ASCII
 // bytes, so whatever byte offset a boundary has, some template has a multi-byte character straddling it.  The templates
 // go through the fragment pipeline: generator text tie, go build, compiled render = exec = denotation = spec/Denote.v.
+// Every third file is NOT valid UTF-8: ill-formed sequences of every kind (nonutf8.go) stand between the words, so that the
+// \xNN escapes of the Go literal and the bytes they denote lie across the same offsets.
 
 var lrWide = []string{"第", "行", "条", "件", "渲", "染", "模", "板", "组", "语", "言", "静", "态", "内", "容", "日本語", "テスト", "한국어", "文字列"}
 var lrTwo = []string{"é", "ü", "ß", "ñ", "Ω", "λ", "ж", "Я", "ø", "ç"}
@@ -27,11 +29,16 @@ var lrUnprintable = []string{"\u200b", "\u00ad", "\u2060"}
 type lrgen struct {
 	r           *rng.R
 	unprintable bool
+	raw         bool // ill-formed UTF-8 among the words (nonutf8.go): the run is not valid UTF-8
 }
 
 func (g *lrgen) word() string {
 	k := g.r.Intn(20)
 	switch {
+	case g.raw && k >= 18:
+		return rng.Pick(g.r, lrTwo) + rng.Pick(g.r, nuKinds[g.r.Intn(len(nuKinds))].pool) + rng.Pick(g.r, lrWide)
+	case g.raw && k == 17:
+		return rng.Pick(g.r, nuKinds[g.r.Intn(len(nuKinds))].pool)
 	case g.unprintable && k == 0:
 		return rng.Pick(g.r, lrWide) + rng.Pick(g.r, lrUnprintable) + rng.Pick(g.r, lrTwo)
 	case k < 11:
@@ -100,8 +107,8 @@ var lrSizes = []int{1024, 2048, 4096, 8192, 16384, 32768, 65536}
 
 // longRunFile: templates T0.. of one file sharing a static content of about `size` bytes, shifted by 0..shifts-1 bytes; the
 // run sits directly in the template body, in an element, in a branch, in a loop body or in a child block.
-func longRunFile(r *rng.R, prefix string, size, shifts int, unprintable bool) string {
-	g := &lrgen{r: r, unprintable: unprintable}
+func longRunFile(r *rng.R, prefix string, size, shifts int, unprintable, raw bool) string {
+	g := &lrgen{r: r, unprintable: unprintable, raw: raw}
 	body := g.content(size)
 	var sb strings.Builder
 	sb.WriteString("package main\n\n")
